@@ -50,6 +50,9 @@ var c10Alphabet = []c10child{
 	{"Lhuge", func() geojson.Object {
 		return geojson.NewLineString(geometry.NewLine([]geometry.Point{gpt(1e308, 0), gpt(1.25e308, 0)}, nil))
 	}},
+	// circles with few steps: the polygon has no vertex at the cardinal bearings, its rectangle is smaller than the disc's
+	{"Circle6", func() geojson.Object { return geojson.NewCircle(gpt(0.5, 0.5), 60000, 6) }},
+	{"Circle3", func() geojson.Object { return geojson.NewCircle(gpt(-0.5, 0.25), 90000, 3) }},
 }
 
 // probes: objects of every kind
@@ -155,20 +158,22 @@ var c10Queries = func() []geometry.Rect {
 // c10Check compares one realised collection with the composition model.
 // expectJSON are the expected children (document order). Returns the first
 // discrepancy.
-func c10Check(coll geojson.Object, expectChildren []string, probes []geojson.Object, queries []geometry.Rect, w *rt.Worker) (what, exp, got string) {
+// c10Check returns every mismatch (structural ones end the check; predicate
+// mismatches are all collected so that a listed one cannot hide another).
+func c10Check(coll geojson.Object, expectChildren []string, probes []geojson.Object, queries []geometry.Rect, w *rt.Worker) (fails [][3]string) {
 	defer func() {
 		if r := recover(); r != nil {
-			what, exp, got = "panic", "no panic", fmt.Sprint(r)
+			fails = append(fails, [3]string{"panic", "no panic", fmt.Sprint(r)})
 		}
 	}()
 	c := coll.(geojson.Collection)
 	ch := c.Children()
 	if len(ch) != len(expectChildren) {
-		return "children-count", fmt.Sprint(len(expectChildren)), fmt.Sprint(len(ch))
+		return [][3]string{{"children-count", fmt.Sprint(len(expectChildren)), fmt.Sprint(len(ch))}}
 	}
 	for i := range ch {
 		if ch[i].JSON() != expectChildren[i] {
-			return "children-order", expectChildren[i], ch[i].JSON()
+			return [][3]string{{"children-order", expectChildren[i], ch[i].JSON()}}
 		}
 	}
 	// empty / rect / count
@@ -190,13 +195,13 @@ func c10Check(coll geojson.Object, expectChildren []string, probes []geojson.Obj
 	}
 	w.Evals += 3
 	if coll.Empty() != empty {
-		return "empty", fmt.Sprint(empty), fmt.Sprint(coll.Empty())
+		return [][3]string{{"empty", fmt.Sprint(empty), fmt.Sprint(coll.Empty())}}
 	}
 	if !empty && coll.Rect() != rect {
-		return "rect", fmt.Sprint(rect), fmt.Sprint(coll.Rect())
+		return [][3]string{{"rect", fmt.Sprint(rect), fmt.Sprint(coll.Rect())}}
 	}
 	if coll.NumPoints() != npts {
-		return "numpoints", fmt.Sprint(npts), fmt.Sprint(coll.NumPoints())
+		return [][3]string{{"numpoints", fmt.Sprint(npts), fmt.Sprint(coll.NumPoints())}}
 	}
 	// iteration: parts in document order, early stop honoured at every position
 	want := modelParts(coll)
@@ -204,11 +209,11 @@ func c10Check(coll geojson.Object, expectChildren []string, probes []geojson.Obj
 	full := coll.ForEach(func(g geojson.Object) bool { gotParts = append(gotParts, g); return true })
 	w.Evals++
 	if !full || len(gotParts) != len(want) {
-		return "foreach", fmt.Sprintf("%d parts, returns true", len(want)), fmt.Sprintf("%d parts, returns %v", len(gotParts), full)
+		return [][3]string{{"foreach", fmt.Sprintf("%d parts, returns true", len(want)), fmt.Sprintf("%d parts, returns %v", len(gotParts), full)}}
 	}
 	for i := range want {
 		if gotParts[i] != want[i] {
-			return "foreach-order", want[i].JSON(), gotParts[i].JSON()
+			return [][3]string{{"foreach-order", want[i].JSON(), gotParts[i].JSON()}}
 		}
 	}
 	for stop := 1; stop <= len(want); stop++ {
@@ -216,7 +221,7 @@ func c10Check(coll geojson.Object, expectChildren []string, probes []geojson.Obj
 		ret := coll.ForEach(func(geojson.Object) bool { calls++; return calls != stop })
 		w.Evals++
 		if calls != stop || ret {
-			return "foreach-early-stop", fmt.Sprintf("%d callbacks, returns false", stop), fmt.Sprintf("%d callbacks, returns %v", calls, ret)
+			return [][3]string{{"foreach-early-stop", fmt.Sprintf("%d callbacks, returns false", stop), fmt.Sprintf("%d callbacks, returns %v", calls, ret)}}
 		}
 	}
 	// search
@@ -232,7 +237,7 @@ func c10Check(coll geojson.Object, expectChildren []string, probes []geojson.Obj
 		c.Search(q, func(k geojson.Object) bool { calls++; seen[k]++; return true })
 		w.Evals++
 		if calls != len(want) {
-			return "search-count", fmt.Sprintf("%d children for %v", len(want), q), fmt.Sprint(calls)
+			return [][3]string{{"search-count", fmt.Sprintf("%d children for %v", len(want), q), fmt.Sprint(calls)}}
 		}
 		cnt := map[geojson.Object]int{}
 		for _, k := range want {
@@ -240,7 +245,7 @@ func c10Check(coll geojson.Object, expectChildren []string, probes []geojson.Obj
 		}
 		for k, n := range cnt {
 			if seen[k] != n {
-				return "search-set", fmt.Sprintf("child %s x%d for %v", k.JSON(), n, q), fmt.Sprintf("x%d", seen[k])
+				return [][3]string{{"search-set", fmt.Sprintf("child %s x%d for %v", k.JSON(), n, q), fmt.Sprintf("x%d", seen[k])}}
 			}
 		}
 		for stop := 1; stop <= len(want); stop++ {
@@ -248,11 +253,12 @@ func c10Check(coll geojson.Object, expectChildren []string, probes []geojson.Obj
 			c.Search(q, func(k geojson.Object) bool { calls++; return calls != stop })
 			w.Evals++
 			if calls != stop {
-				return "search-early-stop", fmt.Sprintf("%d callbacks", stop), fmt.Sprint(calls)
+				return [][3]string{{"search-early-stop", fmt.Sprintf("%d callbacks", stop), fmt.Sprint(calls)}}
 			}
 		}
 	}
-	// predicates
+	// predicates: every probe is evaluated; all mismatches are reported (a listed
+	// one must not hide another probe's)
 	for pi, x := range probes {
 		parts := partsOf(x)
 		mi, mc := false, false
@@ -282,10 +288,10 @@ func c10Check(coll geojson.Object, expectChildren []string, probes []geojson.Obj
 		mc = anyPart && allContained
 		w.Evals += 2
 		if g := coll.Intersects(x); g != mi {
-			return fmt.Sprintf("intersects(probe %d)", pi), fmt.Sprintf("%v: some non-empty child intersects some non-empty part of %s", mi, x.JSON()), fmt.Sprint(g)
+			fails = append(fails, [3]string{fmt.Sprintf("intersects(probe %d)", pi), fmt.Sprintf("%v: some non-empty child intersects some non-empty part of %s", mi, x.JSON()), fmt.Sprint(g)})
 		}
 		if g := coll.Contains(x); g != mc {
-			return fmt.Sprintf("contains(probe %d)", pi), fmt.Sprintf("%v: every non-empty part of %s contained by some child", mc, x.JSON()), fmt.Sprint(g)
+			fails = append(fails, [3]string{fmt.Sprintf("contains(probe %d)", pi), fmt.Sprintf("%v: every non-empty part of %s contained by some child", mc, x.JSON()), fmt.Sprint(g)})
 		}
 		if !isCollection(x) {
 			mw := !empty
@@ -296,19 +302,19 @@ func c10Check(coll geojson.Object, expectChildren []string, probes []geojson.Obj
 			}
 			w.Evals++
 			if g := coll.Within(x); g != mw {
-				return fmt.Sprintf("within(probe %d)", pi), fmt.Sprintf("%v: non-empty and every child within %s", mw, x.JSON()), fmt.Sprint(g)
+				fails = append(fails, [3]string{fmt.Sprintf("within(probe %d)", pi), fmt.Sprintf("%v: non-empty and every child within %s", mw, x.JSON()), fmt.Sprint(g)})
 			}
 			// the collection's Spatial interface given the probe's raw geometry
 			if bg := baseGeometry(x); bg != nil {
 				sw, si, ok := spatialAnswers(coll, bg)
 				w.Evals += 2
 				if ok && (sw != mw || si != mi) {
-					return fmt.Sprintf("spatial-interface(probe %d)", pi), fmt.Sprintf("within=%v intersects=%v for %s", mw, mi, x.JSON()), fmt.Sprintf("Spatial(): within=%v intersects=%v", sw, si)
+					fails = append(fails, [3]string{fmt.Sprintf("spatial-interface(probe %d)", pi), fmt.Sprintf("within=%v intersects=%v for %s", mw, mi, x.JSON()), fmt.Sprintf("Spatial(): within=%v intersects=%v", sw, si)})
 				}
 			}
 		}
 	}
-	return "", "", ""
+	return fails
 }
 
 // baseGeometry: the raw geometry of a leaf probe object (nil for anything else).
@@ -438,8 +444,8 @@ func c10Sequence(k c10kind, seq []int, probes []geojson.Object, w *rt.Worker, em
 		}
 		return rt.Case{Kind: "collection", Op: k.name, Ops: ops, Cfg: cfg, X: map[string]string{"seq": fmt.Sprint(seq)}}
 	}
-	if what, exp, got := c10Check(coll, js, probes, c10Queries, w); what != "" {
-		emit("compose-"+k.name+"-"+what, mk("constructor"), exp, got)
+	for _, f := range c10Check(coll, js, probes, c10Queries, w) {
+		emit("compose-"+k.name+"-"+f[0], mk("constructor"), f[1], f[2])
 	}
 	if !parseable {
 		return
@@ -463,8 +469,8 @@ func c10Sequence(k c10kind, seq []int, probes []geojson.Object, w *rt.Worker, em
 			emit("indexed-"+k.name, mk(fmt.Sprintf("parse/idx%d", t)), fmt.Sprintf("indexed=%v (non-empty children %d, threshold %d)", wantIdx, nonEmpty, t), fmt.Sprint(idx))
 		}
 		// children of a parsed collection re-serialise to the same JSON
-		if what, exp, got := c10Check(o, js, probes, c10Queries, w); what != "" {
-			emit("compose-"+k.name+"-"+what, mk(fmt.Sprintf("parse/idx%d", t)), exp, got)
+		for _, f := range c10Check(o, js, probes, c10Queries, w) {
+			emit("compose-"+k.name+"-"+f[0], mk(fmt.Sprintf("parse/idx%d", t)), f[1], f[2])
 		}
 	}
 }
@@ -492,7 +498,7 @@ func runC10(r *rt.Run) {
 	}
 	r.Bounds["child_sequence_depth"] = map[string]int{"GeometryCollection/FeatureCollection (alphabet 10)": depth, "Multi* (alphabet 4)": mdepth}
 	r.Bounds["thresholds"] = "IndexChildren in {0, 1, n, n+1, 64} through Parse; constructor (64)"
-	r.Rule = "every child sequence up to the depth for the five collection kinds (alphabet: two points, two lines, two polygons, empty line, empty collection, nested collection, feature; duplicates occur as repeated letters), realised by constructor and by Parse under each child-index threshold; large families of 31..1025 children (grid, cluster + outlier, duplicates, mixed with empty children, non-empty Multi* / nested / Feature children holding empty members); probes: 28 objects of every kind incl. empties and nested collections x 3 predicates (and the collection's Spatial interface given each leaf probe's raw geometry), ~170 query rectangles x every stop position; oracle = the statement evaluated over the real children; non-trivial = at least one non-empty child"
+	r.Rule = "every child sequence up to the depth for the five collection kinds (alphabet: two points, two lines, two polygons, empty line, empty collection, nested collection, feature, a line at 1e308, circles of 6 and 3 steps; duplicates occur as repeated letters), realised by constructor and by Parse under each child-index threshold; large families of 31..1025 children (grid, cluster + outlier, duplicates, mixed with empty children, non-empty Multi* / nested / Feature children holding empty members); probes: 28 objects of every kind incl. empties and nested collections x 3 predicates (and the collection's Spatial interface given each leaf probe's raw geometry), ~170 query rectangles x every stop position; oracle = the statement evaluated over the real children; non-trivial = at least one non-empty child"
 	r.Assume = []string{"leaf answers (child vs part) are taken from the real code: this check isolates wrapper / index logic", "within is checked for non-collection X; for collection X it is X's contains clause (duality)"}
 	probes := c10Probes()
 	r.Bounds["probes"] = len(probes)
@@ -628,8 +634,8 @@ func c10Family(fam string, n, kind int, probes []geojson.Object, w *rt.Worker, e
 	if idx := coll.(geojson.Collection).Indexed(); idx != (nonEmpty >= 64) {
 		emit("indexed-family", mk("constructor"), fmt.Sprintf("indexed=%v", nonEmpty >= 64), fmt.Sprint(idx))
 	}
-	if what, exp, got := c10Check(coll, js, probes, c10Queries, w); what != "" {
-		emit("compose-family-"+what, mk("constructor"), exp, got)
+	for _, f := range c10Check(coll, js, probes, c10Queries, w) {
+		emit("compose-family-"+f[0], mk("constructor"), f[1], f[2])
 	}
 	if !parseable {
 		return
@@ -645,8 +651,8 @@ func c10Family(fam string, n, kind int, probes []geojson.Object, w *rt.Worker, e
 		if idx := o.(geojson.Collection).Indexed(); idx != (t != 0 && nonEmpty >= t) {
 			emit("indexed-family", mk(fmt.Sprintf("parse/idx%d", t)), fmt.Sprintf("indexed=%v", t != 0 && nonEmpty >= t), fmt.Sprint(idx))
 		}
-		if what, exp, got := c10Check(o, js, probes, c10Queries, w); what != "" {
-			emit("compose-family-"+what, mk(fmt.Sprintf("parse/idx%d", t)), exp, got)
+		for _, f := range c10Check(o, js, probes, c10Queries, w) {
+			emit("compose-family-"+f[0], mk(fmt.Sprintf("parse/idx%d", t)), f[1], f[2])
 		}
 	}
 }
@@ -664,7 +670,7 @@ func evalC10(c *rt.Case) (bool, string, string, error) {
 	cc.Class = ""
 	want := cc.Key()
 	emit := func(class string, fc rt.Case, exp, got string) {
-		if fc.Key() == want {
+		if fc.Key() == want && (c.Class == "" || class == c.Class) {
 			fails, e, g = true, exp, got
 		}
 	}
